@@ -1,8 +1,12 @@
 #!/bin/bash
-# usage: seedcheck.sh <prop> <patch.diff> [tier]  -- applies a seeded change to /repo, runs the check, reverts
-prop=$1; patch=$2; tier=${3:-quick}
-cd /repo || exit 2
-if [ -n "$(git status --porcelain)" ]; then echo "REPO DIRTY"; git status --short; exit 2; fi
-git apply "$patch" 2>/dev/null || git apply --3way "$patch" 2>/dev/null || { echo "APPLY FAILED"; git reset -q; git checkout -- .; exit 2; }
-cd /verif && GOVC_NO_EVIDENCE=1 ./check $prop $tier 2>&1 | grep -E "VIOLATION|SUMMARY|UNDECIDED" | sed 's/replay=[^ ]* //' | cut -c1-260
-cd /repo && git reset -q && git checkout -- . && git status --short | head -3
+# usage: seedcheck.sh <prop> <patch.diff> [tier]
+# Runs the registered check of <prop> against a seeded change WITHOUT touching /repo: the
+# change is applied to a throw-away worktree of /repo's HEAD (contracts included), govc is
+# pointed at it with -repo, the worktree is removed afterwards. No evidence is written.
+prop=$1; patch=$(realpath "$2"); tier=${3:-quick}
+wt=/scratch/seedwt.$$
+mkdir -p /scratch
+git -C /repo worktree add -q --detach $wt HEAD || exit 2
+( cd $wt && (git apply "$patch" 2>/dev/null || git apply --3way "$patch" 2>/dev/null) ) || { echo "APPLY FAILED"; git -C /repo worktree remove --force $wt; exit 2; }
+GOFLAGS=-mod=mod GOPROXY=off /verif/bin/govc check -prop $prop -tier $tier -repo $wt -verif /verif -no-evidence 2>&1 | grep -E "VIOLATION|SUMMARY|UNDECIDED" | sed 's/replay=[^ ]* //' | cut -c1-260
+git -C /repo worktree remove --force $wt; git -C /repo worktree prune
